@@ -150,6 +150,10 @@ func runTour(cfg *RunCfg, sysName string, salt int64, keyMode int, tour []Step) 
 	}
 	x := NewExec(sys, conc)
 	addr := cfg.Addr
+	if i := strings.Index(addr, "+q="); i >= 0 {
+		x.ObjQuery = addr[i+3:]
+		addr = addr[:i]
+	}
 	if strings.HasSuffix(addr, "+rawpath") {
 		addr = strings.TrimSuffix(addr, "+rawpath")
 		x.RawPath = true
